@@ -281,9 +281,7 @@ Inductive op :=
 | SDestroy (j : nat)               (* ~IOStack, then a new IOStack on the same pool *)
 | SSize (j : nat)
 | SEmpty (j : nat)
-| PoolPurge
-| PoolFree                         (* FreeBlocks() *)
-| PoolAllocated.                   (* BlocksAllocated() *)
+| PoolPurge.                       (* MemoryBlockPool::Purge(), IOQueue::Purge(), IOStack::Purge() *)
 
 Inductive out :=
 | ONone
@@ -348,8 +346,6 @@ Definition step (st : state) (o : op) : res (state * out) :=
     bl <- getb (s_s st) j ;;
     Ok (st, OBool (match bl with [] => true | _ => buf_size bl =? 0 end))
   | PoolPurge => Ok (mkS (p_purge p) (s_q st) (s_s st), ONone)
-  | PoolFree => Ok (st, ONum (length (p_free p)))
-  | PoolAllocated => Ok (st, ONum (p_alloc p))
   end.
 
 Fixpoint run (st : state) (ops : list op) : res (state * list out) :=
@@ -357,6 +353,18 @@ Fixpoint run (st : state) (ops : list op) : res (state * list out) :=
   | [] => Ok (st, [])
   | o :: r => '(st1, x) <- step st o ;; '(st2, xs) <- run st1 r ;; Ok (st2, x :: xs)
   end.
+
+(* pool observers: FreeBlocks(), BlocksAllocated() *)
+Definition free_blocks (st : state) : nat := length (p_free (s_pool st)).
+Definition blocks_allocated (st : state) : nat := p_alloc (s_pool st).
+
+(* blocks held by the buffers *)
+Definition in_use (st : state) : nat :=
+  fold_right (fun bl a => length bl + a) 0 (s_q st ++ s_s st).
+(* the two pool clauses of the property as run-time observables (proved constantly true) *)
+Definition acct_ok (st : state) : bool := blocks_allocated st =? free_blocks st + in_use st.
+Definition noempty_ok (st : state) : bool :=
+  forallb (forallb (fun b => negb (b_empty b))) (s_q st ++ s_s st).
 
 (* internal observables for the correspondence harness: per block (first, last) *)
 Definition buf_layout (bl : buffer) : list (nat * nat) := map (fun b => (b_first b, b_last b)) bl.
